@@ -469,7 +469,15 @@ struct Run {
     const auto& a = sc.args;
     if (sc.kind == "simple") {
       bool baseHasKey = sc.family == "env" && (a[1] == "base" || a[1] == "both");
+      // interrupted-wait: SIGUSR1 (handler installed without SA_RESTART, blocked in every harness thread) is unblocked
+      // only while the queue creates its threads, so that process-directed signals land on a lane thread
+      const bool intr = sc.family == "interrupted-wait";
+      sigset_t usr1;
+      sigemptyset(&usr1);
+      sigaddset(&usr1, SIGUSR1);
+      if (intr) pthread_sigmask(SIG_UNBLOCK, &usr1, nullptr);
       makeQueue(baseHasKey);
+      if (intr) pthread_sigmask(SIG_BLOCK, &usr1, nullptr);
       Launch* L = nullptr;
       if (sc.family == "exit") {
         long out = atol(a[1].c_str());
@@ -485,6 +493,10 @@ struct Run {
       } else if (sc.family == "outerr") {
         L = &addChild("p", {"out", a[0], "err", a[1]});
         expectExit(*L, 0); L->expStdout = atol(a[0].c_str()); L->expStderr = atol(a[1].c_str()); L->sizeClass = "stdout-" + a[0] + "-stderr-" + a[1];
+      } else if (sc.family == "interrupted-wait") {
+        // the child closes its output and lingers: the lane thread sits in wait4() (control channel off) when the signals arrive
+        L = &addChild("p", {"close-then-linger", "700"});
+        expectExit(*L, 3); L->expStdout = 10; L->expStderr = 0; L->sizeClass = "interrupted-wait";
       } else if (sc.family == "close-linger") {
         L = &addChild("p", {"close-then-linger"});
         expectExit(*L, 3); L->expStdout = 10; L->expStderr = 0; L->sizeClass = "close-then-linger";
@@ -537,7 +549,10 @@ struct Run {
         L->expExact = true; L->expText = ""; L->sizeClass = "spawn-error";
       }
       submit(*L);
+      std::thread signaller;
+      if (intr) signaller = std::thread([] { usleep(200000); for (int i = 0; i < 3; ++i) { kill(getpid(), SIGUSR1); usleep(120000); } });
       if (!waitCompletion(*L)) hang(*L, "waiting for the only launch");
+      if (signaller.joinable()) signaller.join();
       if (!fillers.empty()) { usleep(50000); for (int fd : fillers) close(fd); fillers.clear(); }  // (a second completion would arrive at once)
       if (sc.family == "release" || sc.family == "release-bad") usleep(20000);  // see assumptions: the detached waiter thread touches the queue after the callback
       destroyQueue();
@@ -718,6 +733,7 @@ std::vector<Scenario> buildTable() {
           add(s);
         }
       add(mk("close-linger", "simple", "", {}, ctl, "close-then-linger"));
+      add(mk("interrupted-wait", "simple", "", {}, ctl, "interrupted-wait:3-signals-without-restart"));
       for (const char* n : {"0", "1", "4097", "70000", "300000"})
         add(mk("release", "simple", "", {n}, ctl, std::string("release-then-more:") + n));
       for (const char* k : {"wrong-id", "bad-version", "overlong"})
@@ -752,7 +768,7 @@ std::vector<Scenario> buildTable() {
 }
 
 bool timingSensitive(const Scenario& s) {
-  return s.family.compare(0, 6, "cancel") == 0 || s.family == "release" || s.family == "release-bad" || s.family == "close-linger" ||
+  return s.family.compare(0, 6, "cancel") == 0 || s.family == "release" || s.family == "release-bad" || s.family == "close-linger" || s.family == "interrupted-wait" ||
          s.family == "concurrent" || s.family == "gate-release";
 }
 
@@ -779,6 +795,20 @@ struct Driver {
     if (child < 0) { perror("procx: fork"); exit(2); }
     if (child == 0) {
       close(p[0]);
+      {
+        // SIGUSR1: a do-nothing handler WITHOUT SA_RESTART (as the llbuild tool installs for SIGINT), blocked in every
+        // thread the harness creates; the interrupted-wait scenarios unblock it for the queue's own threads only
+        struct sigaction sa;
+        memset(&sa, 0, sizeof sa);
+        sa.sa_handler = [](int) {};
+        sigemptyset(&sa.sa_mask);
+        sa.sa_flags = 0;
+        sigaction(SIGUSR1, &sa, nullptr);
+        sigset_t m;
+        sigemptyset(&m);
+        sigaddset(&m, SIGUSR1);
+        sigprocmask(SIG_BLOCK, &m, nullptr);
+      }
       Report rep;
       rep.fd = p[1];
       rep.verbose = verbose;
